@@ -124,7 +124,7 @@ def stripe_units(ctx, insts, prop='C12'):
             d['C13_GRANULAR'] = '1'
             d['C13_INV_C'] = '&& (((mathint)cursor - (mathint)start) % (mathint)state_granularity == 0)'
             d['C13_INV_K'] = '&& (k + 1 < numWorkers ==> ((mathint)stripes_end[k] - (mathint)start) % (mathint)state_granularity == 0)'
-        common = dict(defines=d, inst=t, timeout=150, signed_wrap=True, nonprop_cls=['overflow', 'conversion'])
+        common = dict(defines=d, inst=t, timeout=400, signed_wrap=True, nonprop_cls=['overflow', 'conversion'])
         rp = lambda kind: dict(prog='replay/c12_replay.cpp', args=lambda ce, u, kind=kind: [kind, 'T=' + u.inst] + ['%s=%s' % (k, v) for k, v in sorted(ce.items()) if v is not None])
         units += [
             Unit('alignDownStripe', 'intwp', S, 'alignDownStripe', expect=[r'postcondition\.2'], **common),
@@ -149,7 +149,7 @@ def sizing_units(ctx, insts, prop='C12'):
         d = c17.inst_defines(t, uu, sg)
         bits = int(t.replace('uint', '').replace('int', '').replace('_t', ''))
         d['IT_MAX'] = str((1 << (bits - (1 if sg else 0))) - 1) + ('u' if not sg else '')
-        common = dict(defines=d, inst=t, timeout=150, signed_wrap=True, nonprop_cls=['overflow', 'conversion'])
+        common = dict(defines=d, inst=t, timeout=400, signed_wrap=True, nonprop_cls=['overflow', 'conversion'])
         rp = lambda kind: dict(prog='replay/c12_replay.cpp', args=lambda ce, u, kind=kind: [kind, 'T=' + u.inst] + ['%s=%s' % (k, v) for k, v in sorted(ce.items()) if v is not None])
         if prop == 'C12':
             units += [
@@ -183,7 +183,7 @@ def build(ctx):
     c17.mapper_pieces(ctx)
     for t, uu, sg in insts:
         d = c17.inst_defines(t, uu, sg)
-        common = dict(defines=d, inst=t, timeout=150, signed_wrap=True, nonprop_cls=['overflow', 'conversion'])
+        common = dict(defines=d, inst=t, timeout=400, signed_wrap=True, nonprop_cls=['overflow', 'conversion'])
         units.append(Unit('StaticChunkMapper.call', 'intwp', 'specs/c17_mapper.c', 'StaticChunkMapper_call',
                           expect=[r'postcondition\.2'], replay=c17.replay_args('mapper'), **common))
         units.append(Unit('c17_mapper_partition', 'intwp', 'specs/c17_mapper.c', 'c17_mapper_partition', expect=[r'assertion\.5'], **common))
